@@ -145,7 +145,63 @@ func connectDots(fset *token.FileSet, lhs, rhs []token.Pos, conns map[token.Pos]
 		return pi.Line < pj.Line || pi.Line == pj.Line && pi.Column < pj.Column
 	})
 
+	// A "..." on a context line is the same one on both sides: it has the
+	// same position in both. Between two of those (or the ends), if there
+	// are as many "..." on one side as on the other, they correspond in
+	// order: the first to the first, and so on. It is the only reading of
+	//
+	//	-foo(..., x, ...)
+	//	+bar(..., x, ...)
+	//
+	// that does not depend on where the lines are broken: by position both
+	// "..." of the "+" line are closest to the last one of the "-" line,
+	// unless the common part is written on a context line of its own.
+	samePos := func(l, r token.Pos) bool {
+		lp, rp := getPosition(l), getPosition(r)
+		return lp.Line == rp.Line && lp.Column == rp.Column
+	}
+	inOrder := make(map[token.Pos]token.Pos)
+	for li, ri := len(lhs)-1, 0; ; {
+		// lhs is in descending order: walk it from the end.
+		var ls, rs []token.Pos
+		for ; ri < len(rhs); ri++ {
+			anchor := false
+			for k := li; k >= 0; k-- {
+				if samePos(lhs[k], rhs[ri]) {
+					anchor = true
+					break
+				}
+			}
+			if anchor {
+				break
+			}
+			rs = append(rs, rhs[ri])
+		}
+		for ; li >= 0; li-- {
+			if ri < len(rhs) && samePos(lhs[li], rhs[ri]) {
+				break
+			}
+			ls = append(ls, lhs[li])
+		}
+		if len(ls) == len(rs) {
+			for k := range rs {
+				inOrder[rs[k]] = ls[k]
+			}
+		}
+		if ri >= len(rhs) || li < 0 {
+			break
+		}
+		inOrder[rhs[ri]] = lhs[li]
+		ri++
+		li--
+	}
+
 	for _, r := range rhs {
+		if l, ok := inOrder[r]; ok {
+			conns[r] = l
+			continue
+		}
+
 		rpos := getPosition(r)
 
 		i := sort.Search(len(lhs), func(i int) bool {
